@@ -353,13 +353,8 @@ func cmdCheck(args []string) int {
 			allowed[a] = true
 		}
 		users := p.UseScan(fsc.Struct, fsc.Field)
-		var bad []string
-		for _, w := range users {
-			if !allowed[w] {
-				bad = append(bad, w)
-			}
-		}
-		o := vc.ScanObligation(fmt.Sprintf("usescan(%s.%s)", fsc.Struct, fsc.Field), fmt.Sprintf("only %v use %s.%s (found: %v)", fsc.Allowed, fsc.Struct, fsc.Field, users), len(bad) == 0, fmt.Sprintf("unlisted users: %v", bad))
+		bad := p.UnlistedUsers(users, allowed)
+		o := vc.ScanObligation(fmt.Sprintf("usescan(%s.%s)", fsc.Struct, fsc.Field), fmt.Sprintf("only %v and helpers inlined into them use %s.%s (found: %v)", fsc.Allowed, fsc.Struct, fsc.Field, users), len(bad) == 0, fmt.Sprintf("unlisted users: %v", bad))
 		obls = append(obls, o)
 	}
 	// global invariants rely on nobody storing to the globals they mention
